@@ -132,6 +132,13 @@ CLAIMED["C11"] = {
     "design": "4/C11",
 }
 
+CLAIMED["C06"] = {
+    "text": "Lean theorems over the Body model (line.rs predicates, evaluate_line, the two nested loops of run_linewise, Executor::script, Settings::shell, run_script's interpreter choice), for EVERY body: a line is the plain concatenation of its fragments - text with {{{{ read as {{, interpolation values untouched wherever they stand; on a continuation line only leading white space of a leading TEXT fragment is dropped, a leading interpolated value is never trimmed; linewise_commands: the commands handed to the shell are exactly, in order, one per logical line (continuation group) - lines joined without the backslashes, sigils removed - and none for empty ones or comments under ignore-comments (loop = compositional specification, by simultaneous induction over the pending state); at most one process per logical line; in [script] and shebang script files every body line stands on its justfile line number (all bodies with increasing line numbers and newline-free lines); the full shell precedence table (--shell/--shell-arg over set shell over sh -cu), the script interpreter precedence (own command, script-interpreter, sh -eu), and that script recipes are independent of every shell flag and setting. Correspondence: 1500 (quick) / 20000 (thorough) generated recipes (sigils, escapes, interpolations with hostile values, continuations with extra indentation, blank and comment lines, tabs/spaces, LF/CRLF, multi-byte text) x 7 shell flag combinations x set shell x script-interpreter x ignore-comments x linewise/shebang/[script]/[script(cmd)] run through the binary with logging shells and interpreters; argv of every process and the script file compared with an oracle computed from the generator's construction and with the model fed with the body the binary parsed.",
+    "note": "Trusted: Lean kernel; the Body model (tied by the differential run); vsh; the kernel's #! handling. Interpolations are taken by value (expression evaluation is C04); values with line feeds are excluded (they necessarily shift script lines). Body-mode lexing/parse_body are compared with the oracle, not proved (the lexer port is tied in C12). shell() passes the command again as $0 (observed, outside the statement). Windows paths not covered.",
+    "technique": "Lean 4 proof (loop-to-specification refinement by simultaneous induction, list lemmas for script line numbers, decision tables by rfl) + argv/script-file differential with logging shells",
+    "design": "4/C06",
+}
+
 PENDING = "check not built yet in this session (see DESIGN.md build order); no claim is made"
 
 
